@@ -198,3 +198,42 @@ def subalphabet_text(sub, url, rng, max_tries=4000):
             if all(c in sub for c in text[45:]):
                 return body[0], wc, body[2:]
     return None
+
+
+# ----------------------------------------------------------------------------- round 11: raw texts that ALSO read as friendly ones
+
+HEX_AFFINE = ['0123', '4567', '89', 'ab', 'cdef']        # sub-alphabets of the hex digits whose base64 values form affine sets
+
+
+def friendly_reading_workchains(rng, extra=10):
+    """workchains whose raw text `wc:` + 64 hex digits keeps, with the colon dropped (the lenient base64 decoders drop it), a number of base64
+    characters that is a multiple of 4 - i.e. that base64-decodes at all: 4- and 8-character decimal texts.  All of -128..-100 (the 1-byte
+    workchains among them), and a sample of the others (-999..-129, 1000..9999, 8-character ones)."""
+    out = list(range(-128, -99))
+    for _ in range(extra):
+        out.append(rng.choice([rng.randrange(-999, -128), rng.randrange(1000, 10000), rng.randrange(-9999999, -999999), rng.randrange(10 ** 7, 10 ** 8)]))
+    return out
+
+
+def raw_also_friendly(rng, wc, count=2):
+    """raw address texts `wc:hex64` (the text Address.to_str(False) produces for (wc, account id)) whose colon-stripped characters, READ AS BASE64,
+    carry a correct CRC-16 at the friendly position: decoded bytes 34..35 = CRC-16 of decoded bytes 0..33.  The first 48 base64 characters are the
+    workchain text and the first 48 - len(wc text) hex digits: each hex position gets a random affine sub-alphabet of the hex digits and the 16
+    linear CRC conditions are solved by GF(2) elimination (twoform.b64_crc_strings); the remaining hex digits are random.
+    -> [(wc, account id bytes, text)]; [] if str(wc) + 64 hex digits is not a multiple of 4 characters (then no base64 reading exists)."""
+    from . import twoform
+    w = str(wc)
+    if (len(w) + 64) % 4 or len(w) >= 48:
+        return []
+    nfix = 48 - len(w)
+    out = []
+    for _ in range(count):
+        tpl = [c for c in w] + [':'] + [rng.choice(HEX_AFFINE) for _ in range(nfix)]
+        for head in twoform.b64_crc_strings(rng, tpl, 1):
+            text = head + ''.join(rng.choice('0123456789abcdef') for _ in range(64 - nfix))
+            hp = bytes.fromhex(text.split(':')[1])
+            dec = __import__('base64').urlsafe_b64decode(text)
+            if int.from_bytes(dec[34:36], 'big') != _crc16(dec[:34]) or len(dec) != 3 * (len(w) + 64) // 4 or text != f'{wc}:{hp.hex()}':
+                raise AssertionError(f'addrtexts.raw_also_friendly: construction failed for {text!r}')
+            out.append((wc, hp, text))
+    return out
